@@ -252,6 +252,23 @@ func (e *Enc) dynamicCall(fr *Frame, st *State, cc *ssa.CallCommon, fnv *Val, ar
 			}
 		}
 	}
+	// a call through a func-typed struct field: contract keyed "fieldfunc.T.f"
+	if u, ok := cc.Value.(*ssa.UnOp); ok {
+		if fa, ok := u.X.(*ssa.FieldAddr); ok {
+			if n, ok := derefNamed(fa.X.Type()); ok && n.Obj().Pkg() != nil {
+				stt := n.Underlying().(*types.Struct)
+				key := "fieldfunc." + n.Obj().Name() + "." + stt.Field(fa.Field).Name()
+				if c := e.w.contractByKey(n.Obj().Pkg().Path(), key); c != nil {
+					sig := cc.Signature()
+					var names []string
+					for i := 0; i < sig.Params().Len(); i++ {
+						names = append(names, sig.Params().At(i).Name())
+					}
+					return e.modularCall(fr, st, c, names, args, rt, site, key, sig)
+				}
+			}
+		}
+	}
 	// function-typed value: use a functype contract when the static type is named
 	if n, ok := cc.Value.Type().(*types.Named); ok && n.Obj().Pkg() != nil {
 		if c := e.w.contractByKey(n.Obj().Pkg().Path(), "functype."+n.Obj().Name()); c != nil {
@@ -313,7 +330,11 @@ func (e *Enc) modularCall(fr *Frame, st *State, c *FuncContract, names []string,
 	}
 	e.flush(st)
 	old := st.clone()
-	env := &SpecEnv{e: e, cur: st, old: old, vars: vars, pkg: c.Pkg, fr: nil}
+	cpkg := c.Pkg
+	if c.SpecPkg != "" {
+		cpkg = c.SpecPkg
+	}
+	env := &SpecEnv{e: e, cur: st, old: old, vars: vars, pkg: cpkg, fr: nil}
 	for _, cl := range c.Requires {
 		if cl.Free {
 			e.specAssume(st, cl.E, env)
@@ -332,7 +353,7 @@ func (e *Enc) modularCall(fr *Frame, st *State, c *FuncContract, names []string,
 	res := e.fresh(rt, "res."+sanitize(calleeName))
 	e.assume(st, e.wf(res, st.alloc))
 	e.bindResults(vars, res, sig)
-	env2 := &SpecEnv{e: e, cur: st, old: old, vars: vars, pkg: c.Pkg}
+	env2 := &SpecEnv{e: e, cur: st, old: old, vars: vars, pkg: cpkg}
 	// components the postcondition reads in the new state get a fresh version above the old
 	// allocation frontier (the callee may have initialised objects it allocated); below the
 	// frontier they are unchanged unless listed in modifies. Using a distinct array symbol
@@ -706,6 +727,33 @@ func (e *Enc) special(fr *Frame, st *State, full string, callee *ssa.Function, a
 		ok := e.s.FreshDef("cas", "Bool", eq(v.term(), args[1].term()))
 		e.storeAt(st, args[0].term(), t, args[0].Comp, intVal(t, ite(ok, args[2].term(), v.term())))
 		return boolVal(ok), true
+	case "(encoding/binary.bigEndian).PutUint64", "(encoding/binary.littleEndian).PutUint64",
+		"(encoding/binary.bigEndian).PutUint32", "(encoding/binary.littleEndian).PutUint32",
+		"(encoding/binary.bigEndian).PutUint16", "(encoding/binary.littleEndian).PutUint16":
+		n := "8"
+		if strings.HasSuffix(full, "32") {
+			n = "4"
+		} else if strings.HasSuffix(full, "16") {
+			n = "2"
+		}
+		b := args[len(args)-2]
+		e.boundsCheck(st, fmt.Sprintf("(>= %s %s)", b.S[1], n), "binary.PutUintN: buffer too short at "+e.w.posOf(site.Pos()))
+		e.havocRange(st, elemType(b.T), b.S[0], n)
+		return unitVal(), true
+	case "(encoding/binary.bigEndian).Uint64", "(encoding/binary.littleEndian).Uint64",
+		"(encoding/binary.bigEndian).Uint32", "(encoding/binary.littleEndian).Uint32",
+		"(encoding/binary.bigEndian).Uint16", "(encoding/binary.littleEndian).Uint16":
+		n := "8"
+		if strings.HasSuffix(full, "32") {
+			n = "4"
+		} else if strings.HasSuffix(full, "16") {
+			n = "2"
+		}
+		b := args[len(args)-1]
+		e.boundsCheck(st, fmt.Sprintf("(>= %s %s)", b.S[1], n), "binary.UintN: buffer too short at "+e.w.posOf(site.Pos()))
+		r := e.fresh(rt, "rdint")
+		e.assume(st, e.wf(r, st.alloc))
+		return r, true
 	case "fmt.Sprintf", "fmt.Sprint":
 		r := e.fresh(rt, "str")
 		return r, true
@@ -796,6 +844,23 @@ func (e *Enc) callWriteSet(fr *Frame, li *loopInfo, st *State, cc *ssa.CallCommo
 			if g, ok := u.X.(*ssa.Global); ok {
 				callee = e.w.constFuncGlobal(g)
 			}
+			if fa, ok := u.X.(*ssa.FieldAddr); ok {
+				if n, ok := derefNamed(fa.X.Type()); ok && n.Obj().Pkg() != nil {
+					stt := n.Underlying().(*types.Struct)
+					key := "fieldfunc." + n.Obj().Name() + "." + stt.Field(fa.Field).Name()
+					if c := e.w.contractByKey(n.Obj().Pkg().Path(), key); c != nil {
+						sig := cc.Signature()
+						var names []string
+						var tys []types.Type
+						for i := 0; i < sig.Params().Len(); i++ {
+							names = append(names, sig.Params().At(i).Name())
+							tys = append(tys, sig.Params().At(i).Type())
+						}
+						e.contractWriteSet(c, names, tys, ws, all)
+						return
+					}
+				}
+			}
 		}
 	}
 	if callee == nil {
@@ -826,6 +891,11 @@ func (e *Enc) callWriteSet(fr *Frame, li *loopInfo, st *State, cc *ssa.CallCommo
 	case strings.HasPrefix(full, "sync/atomic.Load"):
 		return
 	case strings.HasPrefix(full, "(*github.com/lni/dragonboat/v4/internal/server.InMemRateLimiter)."):
+		return
+	case strings.HasPrefix(full, "(encoding/binary.bigEndian).Put") || strings.HasPrefix(full, "(encoding/binary.littleEndian).Put"):
+		addLeaves(elemType(cc.Args[len(cc.Args)-2].Type()), "", false)
+		return
+	case strings.HasPrefix(full, "(encoding/binary.bigEndian).Uint") || strings.HasPrefix(full, "(encoding/binary.littleEndian).Uint"):
 		return
 	case full == "errors.Is" || full == "github.com/cockroachdb/errors.Is" || full == "fmt.Sprintf" || full == "fmt.Errorf" || full == "errors.New":
 		return
@@ -875,7 +945,11 @@ func (e *Enc) contractWriteSet(c *FuncContract, names []string, tys []types.Type
 		}
 	}
 	scratch := &State{reach: "true", heap: map[string]string{}, alloc: "0"}
-	env := &SpecEnv{e: e, cur: scratch, old: scratch, vars: vars, pkg: c.Pkg}
+	cpkg := c.Pkg
+	if c.SpecPkg != "" {
+		cpkg = c.SpecPkg
+	}
+	env := &SpecEnv{e: e, cur: scratch, old: scratch, vars: vars, pkg: cpkg}
 	for _, t := range e.modTargets(c, env) {
 		ws.whole(t.comp, t.sort)
 	}
